@@ -17,12 +17,23 @@ theorem resolve_user {G : GCtx} (ok : G.OK) {pi : PInfo} {sp dep : Nat} {hi : Na
   unfold X.resolveCallee
   rw [hl, hp, hpp]
 
+/-- The name of a procedure is not the name of a constant: a call of it is a user call. -/
+theorem GCtx.OK.sysOf_pname {G : GCtx} (ok : G.OK) (g : String) (hg : g ∈ G.pnames) : sysOf G.rho g = -1 := by
+  unfold sysOf
+  cases h : G.rho g with
+  | none => rfl
+  | some w =>
+    obtain ⟨p, hp⟩ := ok.pnames_mem g hg
+    have := (ok.rho_ok g w).mpr h
+    rw [hp] at this
+    simp at this
+
 theorem optExpr_call (sys : Int) (f : String) (args : List AExpr) :
     optExpr (.call sys f args) = .call sys f (optArgs args) := by
   conv => lhs; unfold optExpr
 
 theorem annot_call (ρ : String → Option Word) (g : String) (args : List X.Expr) :
-    optExpr (annotate ρ (.call g args)) = .call (-1) g (optArgsOf ρ args) := by
+    optExpr (annotate ρ (.call g args)) = .call (sysOf ρ g) g (optArgsOf ρ args) := by
   simp only [annotate, optExpr_call, annotateL_map, optArgs_map]
 
 theorem eval_call_user (f : Nat) (xc : X.Ctx) (g : String) (args : List X.Expr) (σ st : X.St) (p : X.Proc)
@@ -86,7 +97,7 @@ theorem exec_callExprF {G : GCtx} (ok : G.OK) (fuel : Nat) (hcs : ∀ k, k < fue
           obtain ⟨kind, hk, hseq⟩ := genExpr_call_inv _ _ _ _ _ _ _ _ hgen
           obtain ⟨_, hk'⟩ := exprCallKind_inv _ _ _ _ _ _ hk
           rcases hk' with ⟨hne, _⟩ | ⟨_, sym, hsym, hkind⟩
-          · exact absurd rfl hne
+          · exact absurd (ok.sysOf_pname g hg) hne
           obtain ⟨sym', hsym', hty⟩ := ok.callee_sym pi hpi pj hpj
           rw [hname] at hsym'
           have : sym = sym' := by
@@ -238,7 +249,7 @@ theorem callLeaf_of_spec {G : GCtx} (ok : G.OK) (pk : PureOk G.xc) {pi : PInfo} 
               obtain ⟨kind, hk, hseq⟩ := genExpr_call_inv _ _ _ _ _ _ _ _ hgen
               obtain ⟨_, hk'⟩ := exprCallKind_inv _ _ _ _ _ _ hk
               rcases hk' with ⟨hne, _⟩ | ⟨_, sym, hsym, hkind⟩
-              · exact absurd rfl hne
+              · exact absurd (ok.sysOf_pname g hgm) hne
               obtain ⟨sym', hsym', hty⟩ := ok.callee_sym pi hpi pj hpj
               rw [hname] at hsym'
               have : sym = sym' := by
@@ -680,27 +691,6 @@ theorem callE_inv (ps : List String) (e : X.Expr) (h : callE ps e = true) :
   cases e <;> simp [callE] at h
   rename_i g args
   exact ⟨g, args, rfl, h.1, h.2⟩
-
-/-- The actuals of a call of the class, at every fuel below `F`. -/
-theorem argsOK_5 {G : GCtx} (ok : G.OK) {pi : PInfo} (hpi : pi ∈ G.procs) (sp dep : Nat)
-    (hi : Nat → Word) (hlo : G.lo ≤ sp) (hspv : sp + G.S pi + pi.po + pi.p.formals.length ≤ G.spv + 1)
-    (hstack : G.spv ≤ sp + dep * G.smax) (F : Nat) (hcs : ∀ k, k < F → CallSpec G k)
-    (args : List X.Expr) (h : argsOk5 G.pk G.pnames G.xc.impure G.rho args = true) :
-    ∀ f, f < F → ArgsOK G pi sp dep hi f args := by
-  intro f hf
-  simp only [argsOk5, Bool.or_eq_true, Bool.and_eq_true, List.all_eq_true] at h
-  rcases h with (hp | ⟨hpk, hpp⟩) | hfc
-  rotate_left 2
-  · cases args with
-    | nil => simp [firstCallArgs] at hfc
-    | cons a rest =>
-      simp only [firstCallArgs, Bool.and_eq_true, List.all_eq_true] at hfc
-      obtain ⟨g, args', rfl, hg, hargs'⟩ := callE_inv _ _ hfc.1
-      exact argsOK_first ok hpi sp dep hi hlo hspv hstack F hcs g args' rest hg hargs' hfc.2 f hf
-  · exact argsOK_pure ok hpi sp dep hi hlo hspv hstack f args hp
-  · exact argsOK_pp ok hpi sp dep hi hlo hspv hstack (ok.pure_ok hpk) f
-      (fun k hk => callLeaf_of_spec ok (ok.pure_ok hpk) hpi sp dep hi hlo hspv hstack k (fun j hj => hcs j (by omega)))
-      args hpp
 
 theorem callE5_inv (pk : Bool) (ps imp : List String) (ρ : String → Option Word) (e : X.Expr) (h : callE5 pk ps imp ρ e = true) :
     ∃ g args, e = .call g args ∧ g ∈ ps ∧ argsOk5 pk ps imp ρ args = true := by
